@@ -12,6 +12,7 @@ metadata.entity_descriptor.
 """
 import itertools
 import random
+import re
 
 from vlib import env, fed, mdgen, clock, xmlkit as xk, monitors
 
@@ -119,7 +120,7 @@ def gen_cases(tier, seed):
         cases.append({"id": "reload-%d" % k, "sig": ["reload", k], "kind": "reload", "k": k})
     for k in range(12 if tier == "quick" else 600):
         cases.append({"id": "mixed-%d" % k, "sig": ["mixed", k], "kind": "mixed", "k": k})
-    for variant in ("valid", "tampered", "wrong-cert", "unsigned-with-cert", "signed-no-cert", "wrapped-root"):
+    for variant in ("valid", "valid-whole-document-reference", "tampered", "wrong-cert", "unsigned-with-cert", "signed-no-cert", "wrapped-root", "wrapped-root-signature-moved", "wrapped-root-genuine-in-extensions"):
         for wrapped in (0, 1):
             cases.append({"id": "signed-%s-%s" % (variant, "entities" if wrapped else "entity"), "sig": ["signed", variant, wrapped], "kind": "signed",
                           "variant": variant, "wrapped": wrapped})
@@ -435,7 +436,8 @@ def run_signed(case, ctx, viol, counters, sigs):
     signer, cert = 9, fed.key(9)[1]
     text = doc
     if variant != "unsigned-with-cert":
-        text = xk.sign_element(doc, ns_local[0], ns_local[1], "md-doc-1", fed.key(signer)[0], "rsa-sha256", fed.cert_body(signer))
+        text = xk.sign_element(doc, ns_local[0], ns_local[1], "md-doc-1", fed.key(signer)[0], "rsa-sha256", fed.cert_body(signer),
+                               ref_uri="" if variant == "valid-whole-document-reference" else None)      # URI="" = the whole document, common in federation aggregates
     if variant == "tampered":
         text = text.replace("https://e0.example.org/sso", "https://attacker.example.net/sso")
     if variant == "wrapped-root":
@@ -446,6 +448,22 @@ def run_signed(case, ctx, viol, counters, sigs):
         evil = xk.Doc(doc.replace("https://e0.example.org/sso", "https://attacker.example.net/sso").replace('ID="md-doc-1"', 'ID="md-doc-evil"'))
         ext = '<md:Extensions xmlns:md="%s">%s</md:Extensions>' % (mdgen.MD, genuine.decode("utf-8"))
         text = evil.prepend_child(evil.root, d.outer(sig).decode("utf-8") + ext).text()
+    if variant in ("wrapped-root-signature-moved", "wrapped-root-genuine-in-extensions"):
+        # an outsider's root element around the genuine, validly signed document; the only Signature the tool will look at is the genuine one
+        d = xk.Doc(text)
+        sig = d.root.child(xk.DS, "Signature")
+        sigb = d.outer(sig).decode("utf-8")
+        evil_e = mdgen.entity({"eid": "https://attacker.example.net/md", "idp": {"keys": [("signing", 9)], "sso": [(REDIR, "https://attacker.example.net/sso")]}})
+        evil_e = evil_e[evil_e.index("?>") + 2:] if evil_e.startswith("<?xml") else evil_e
+        if variant == "wrapped-root-signature-moved":
+            inner = d.remove(sig)
+            genuine_wo = inner.standalone(inner.root).decode("utf-8")
+            text = '<md:EntitiesDescriptor xmlns:md="%s" ID="md-doc-evil" Name="evil">%s%s%s</md:EntitiesDescriptor>' % (mdgen.MD, sigb, evil_e, genuine_wo)
+        else:
+            genuine = d.standalone(d.root).decode("utf-8")
+            bogus = re.sub(r"(<[^>]*SignatureValue[^>]*>)[^<]*(</)", r"\1AAAA\2", sigb)
+            text = '<md:EntitiesDescriptor xmlns:md="%s" ID="md-doc-evil" Name="evil"><md:Extensions>%s</md:Extensions>%s%s</md:EntitiesDescriptor>' % (mdgen.MD, genuine, evil_e, bogus)
+        ns_local, node_name = (mdgen.MD, "EntitiesDescriptor"), None
     use_cert = fed.key(4)[1] if variant == "wrong-cert" else (None if variant == "signed-no-cert" else cert)
     store = new_store()
     url = "https://md.example.org/federation.xml"
@@ -522,13 +540,18 @@ def run_signed(case, ctx, viol, counters, sigs):
     if variant in ("tampered", "wrong-cert"):
         if served:
             viol.append({"key": "C16/entities-served-from-metadata-whose-signature-does-not-verify", "what": what})
-    elif variant == "valid" and not can_serve:
+    elif variant in ("valid", "valid-whole-document-reference") and not can_serve:
         counters["observation:valid-signed-%s-via-%s" % ("served" if served else "not-served", form)] = 1
-    elif variant == "valid":
+    elif variant in ("valid", "valid-whole-document-reference"):
         if not served or exc is not None:
             viol.append({"key": "C16/validly-signed-metadata-not-served", "what": what + " %r" % (exc,)})
         elif not genuine_ok:
             viol.append({"key": "C16/signed-metadata-served-without-genuine-verification", "what": what})
+    elif variant.startswith("wrapped-root-"):
+        all_served = sorted(store.keys())
+        if "https://attacker.example.net/md" in all_served:
+            viol.append({"key": "C16/entities-served-that-the-verified-signature-does-not-cover",
+                         "what": what + "; the document's root is an outsider's element around the genuine signed one, and the outsider's entity is served: %r" % all_served})
     elif variant == "wrapped-root":
         counters["observation:wrapped-metadata-%s" % ("served" if served else "refused")] = 1
         if served and sso and "attacker" in sso[0]:
